@@ -152,6 +152,14 @@ def key_array(spec, container="np", index=None, splits=None):
     import pandas as pd
 
     kind, vals, name = spec["kind"], spec["vals"], spec.get("name")
+    if kind == "range":
+        return pd.RangeIndex(spec["start"], spec["stop"], spec["step"], name=name)
+    if container in ARROW_FAMILY and kind in ("int", "float", "str", "bool"):
+        # Arrow-family containers carry logical nulls as Arrow nulls (not NaN)
+        import pyarrow as pa
+
+        typ = {"int": pa.int64(), "float": pa.float64(), "str": pa.string(), "bool": pa.bool_()}[kind]
+        return pour_arrow(pa.array(vals, type=typ), container, index=index, name=name, splits=splits)
     if kind == "cat":
         arr = pd.Categorical(vals, categories=spec["cats"])
         if container == "np":
@@ -174,6 +182,33 @@ def key_array(spec, container="np", index=None, splits=None):
     else:
         raise KeyError(kind)
     return pour(base, container, index=index, name=name, splits=splits)
+
+
+ARROW_FAMILY = ("pl", "pa", "pa_chunked", "pd_arrow", "pd_arrow_chunked")
+
+
+def pour_arrow(pa_arr, container, index=None, name=None, splits=None):
+    """pyarrow array -> Arrow-family container."""
+    import pandas as pd
+    import pyarrow as pa
+
+    n = len(pa_arr)
+    if container == "pa":
+        return pa_arr
+    if container in ("pa_chunked", "pd_arrow_chunked"):
+        bounds = [0, *(splits or []), n]
+        ch = pa.chunked_array([pa_arr.slice(a, b - a) for a, b in zip(bounds, bounds[1:])], type=pa_arr.type)
+        if container == "pa_chunked":
+            return ch
+        return pd.Series(pd.arrays.ArrowExtensionArray(ch), index=index, name=name)
+    if container == "pd_arrow":
+        return pd.Series(pd.arrays.ArrowExtensionArray(pa_arr), index=index, name=name)
+    if container == "pl":
+        import polars as pl
+
+        s = pl.from_arrow(pa_arr)
+        return s.alias(name) if name else s
+    raise KeyError(container)
 
 
 def pour(base, container, index=None, name=None, splits=None):
